@@ -88,9 +88,25 @@ def run(call):
             arr = numpy.array(vals, dtype=object) if call.get("as_array") else vals
             r = H.encode(arr)
             return {"kind": "return", "value": {"ok": False, "encoded": [int(x) for x in r]}}
+        if mode == "encode-unsupported":
+            # sequences holding an element of an unsupported type (a float, a name among indices, an index among names): every one
+            # must be refused, wherever the unsupported element stands
+            H = make_enum(3, "H")
+            accepted = []
+            for vals in call["sequences"]:
+                try:
+                    r = H.encode(list(vals))
+                    accepted.append({"input": vals, "encoded": [int(x) for x in r]})
+                except Exception:
+                    pass
+            return {"kind": "return", "value": {"ok": not accepted, "accepted-though-not-all-elements-are-members-names-or-indices": accepted[:4]}}
         if mode == "names":
             from openfisca_core import indexed_enums
             names = call["names"]
+            if call.get("earlier_names"):
+                # history: an enumeration of the same name declared with other names / another order was encoded before
+                H0 = indexed_enums.Enum("H", {nm: "value " + nm for nm in call["earlier_names"]})
+                _utils._str_to_index(H0, list(call["earlier_names"]))
             H = indexed_enums.Enum("H", {nm: "value " + nm for nm in names})
             vals = list(call["values"])
             arr = numpy.array(vals) if call.get("as_array") else vals
